@@ -1,6 +1,6 @@
 (* The classical clauses of C08 as a decidable check on a state, the
    refutation of `classical_finish` for cpl.Model.finish as coded, and the
-   model of the repaired completion proposed in fixes/c08-identity.diff:
+   model of the repaired completion (fix 08fe120, = the current code):
 
      _close_identity(w): the true identity pairs are closed to an equivalence
        relation over self.constants with the package's own GlobalAccess
@@ -92,24 +92,29 @@ Definition cl_frame_fixed (cord : list nat) (pord : nat -> list pred) (st : stat
 Definition cl_complete_fixed (cord : list nat) (pord : nat -> list pred) (st : state) : option state :=
   fold_opt (cl_frame_fixed cord pord) st (s_fkeys st).
 
-Definition finish_fixed (L : mlogic) (cord : list nat) (pord : nat -> list pred) (st : state)
+(* Model.finish of every logic, as coded at /repo HEAD.  cpl.Model.finish:
+     _complete_frames(); R.enforce(); _is_frame_complete = False; _complete_frames();
+     for w, frame in frames.items(): _close_identity; augment each predicate;
+                                     _ensure_self_identity; _ensure_self_existence
+     return super().finish()        (BaseModel.finish = PyModel.base_finish) *)
+Definition finish (L : mlogic) (cord : list nat) (pord : nat -> list pred) (st : state)
   : option state :=
   if ml_classical L then
-    match complete_frames L st with
+    match pre_complete L st with
     | None => None
-    | Some st1 =>
-        match cl_complete_fixed cord pord st1 with
+    | Some st2 =>
+        match cl_complete_fixed cord pord st2 with
         | None => None
-        | Some st2 => base_finish L st2
+        | Some st3 => base_finish L st3
         end
     end
   else base_finish L st.
 
-Definition run_fixed (L : mlogic) (cord : list nat) (pord : nat -> list pred) (os : list op)
+Definition run (L : mlogic) (cord : list nat) (pord : nat -> list pred) (os : list op)
   : option state :=
   match apply_ops L init_state os with
   | None => None
-  | Some st => finish_fixed L cord pord st
+  | Some st => finish L cord pord st
   end.
 
 (* ---- a hand written classical logic for the in-theory witnesses -------------- *)
@@ -141,12 +146,12 @@ Definition wit_chain : list op :=
 Definition all_pord (w : nat) : list pred := [PUser 0 1; PIdentity; PExistence].
 
 (* `classical_finish` (for every order and history, after finish the classical
-   clauses hold) is FALSE of cpl.Model.finish as coded: for the history
+   clauses hold) is FALSE of cpl.Model.finish as it was coded before fix 08fe120 (run_old): for the history
    [a = b := T] EVERY iteration order of the two constants gives a model in
    which a = b is true and b = a is not. *)
 Theorem classical_finish_refuted :
   exists os, forall cord, In cord [[0; 1]; [1; 0]] ->
-    exists st, run ML_cfol cord all_pord os = Some st /\
+    exists st, run_old ML_cfol cord all_pord os = Some st /\
                classical_okb st = false /\
                value_of ML_cfol st (SPred PIdentity [PC 0; PC 1]) 0 = Val VT /\
                value_of ML_cfol st (SPred PIdentity [PC 1; PC 0]) 0 = Val VF.
@@ -158,7 +163,7 @@ Qed.
 (* the witness of the design (a=b, b=c, Fa): c=a and c=b stay false in the
    insertion order *)
 Example classical_finish_chain :
-  exists st, run ML_cfol [0; 1; 2] all_pord wit_chain = Some st /\
+  exists st, run_old ML_cfol [0; 1; 2] all_pord wit_chain = Some st /\
     map (fun s => value_of ML_cfol st s 0)
         [SPred (PUser 0 1) [PC 0]; SPred (PUser 0 1) [PC 1]; SPred (PUser 0 1) [PC 2];
          SPred PIdentity [PC 0; PC 2]; SPred PIdentity [PC 2; PC 0];
@@ -169,7 +174,7 @@ Proof. eexists. split; vm_compute; reflexivity. Qed.
 (* the result depends on the iteration order of the set of constants *)
 Example classical_finish_order_dependent :
   exists os c1 c2 st1 st2,
-    run ML_cfol c1 all_pord os = Some st1 /\ run ML_cfol c2 all_pord os = Some st2 /\
+    run_old ML_cfol c1 all_pord os = Some st1 /\ run_old ML_cfol c2 all_pord os = Some st2 /\
     value_of ML_cfol st1 (SPred (PUser 0 1) [PC 2]) 0 <> value_of ML_cfol st2 (SPred (PUser 0 1) [PC 2]) 0.
 Proof.
   exists [OPredicated 0 (PUser 0 1) [PC 0] VT; OPredicated 0 PIdentity [PC 0; PC 1] VT;
@@ -180,6 +185,6 @@ Qed.
 
 (* the repaired completion on the same witnesses *)
 Example classical_fixed_witnesses :
-  (exists st, run_fixed ML_cfol [1; 0] all_pord wit_sym = Some st /\ classical_okb st = true) /\
-  (exists st, run_fixed ML_cfol [2; 0; 1] all_pord wit_chain = Some st /\ classical_okb st = true).
+  (exists st, run ML_cfol [1; 0] all_pord wit_sym = Some st /\ classical_okb st = true) /\
+  (exists st, run ML_cfol [2; 0; 1] all_pord wit_chain = Some st /\ classical_okb st = true).
 Proof. split; eexists; split; vm_compute; reflexivity. Qed.
